@@ -224,6 +224,25 @@ def run(ck):
     ok = len(clamp) == 1 and len(asg) == 1 and cfg.edge_dominates(rv, clamp[0].id, 0, asg[0]) and len(rz) == 1 and rz[0]["args"][0].get("v") == rv.params[0]["name"] \
         and clamp[0].id in cfg.dominators(rv).get(rz[0].block, ())
     ck.ob("C05-R4", "DynamicStreamBuf::reserve/clamps", ok, rv.loc, rv, "size is clamped to maxSize_ before data_.resize(size)")
+    # the configured cap reaches every buffer a response is serialised into: constructors of ResponseWriter (incl. the copy made by
+    # clone(), which the router hands to every route handler) and the stream created by stream()
+    nb = 0
+    for fn in prog.funcs.values():
+        if fn.cls == H + "ResponseWriter" and fn.d.get("ctor"):
+            for e in fn.events("init"):
+                if e.get("f") == RW + "buf_":
+                    nb += 1
+                    t = e.get("t") or ""
+                    ok = "getMaxResponseSize()" in t or ".maxSize()" in t or "std::move(" in t
+                    ck.ob("C05-R4", "ResponseWriter%s/buffer-cap-from-configuration" % fn.d.get("sig", ""), ok, e.loc, fn,
+                          "buf_ initialised with %s" % t if ok else
+                          "buf_ is initialised with `%s`: the configured maximum response size is lost for this writer, so an over-limit response "
+                          "is emitted instead of being refused" % t)
+    st = lib.single(prog, RW + "stream")
+    cons = [e for e in st.events("construct") if (e.get("cls") or "") == H + "ResponseStream" and not e.get("copymove")]
+    ok = bool(cons) and any(".maxSize()" in (a.get("t") or "") for a in cons[0].get("args", []))
+    ck.ob("C05-R4", "ResponseWriter::stream/buffer-cap-from-configuration", ok, st.loc, st, "the stream inherits buf_.maxSize()")
+    ck.require(nb >= 2, "ResponseWriter constructors initialising buf_: %d" % nb)
     pb = []
     for fn in prog.funcs.values():
         if fn.cls == "Pistache::DynamicStreamBuf":
